@@ -238,3 +238,20 @@ def replay(ctx, prop):
         raise vlib.ToolError("replay file has neither a case nor a recorded event")
     ctx.note("replay of %s" % os.path.basename(path))
     return True
+
+
+def validate_as_notes(ctx, module, trace_path, label, reset_events, max_rejections=6, heap="8g"):
+    """Validate a trace whose verdicts are observations outside the listed properties:
+    rejections are reported with ctx.note, never as violations. Returns (events, rejections)."""
+    n = vlib.count_lines(trace_path)
+    if n == 0:
+        return 0, []
+    out = vlib.validate_trace_cases(SPEC, module, trace_path, cfg=module + ".cfg", reset_events=reset_events,
+                                    max_rejections=max_rejections, timeout=3000, heap=heap)
+    for r in out["results"]:
+        ctx.add_tlc(r)
+    for rj in out["rejections"][:3]:
+        ctx.note("%s: event at line %d rejected by %s: %s" % (label, rj["line"], module, json.dumps(rj["record"])[:400]))
+    if len(out["rejections"]) > 3:
+        ctx.note("%s: %d rejections in total%s" % (label, len(out["rejections"]), " (more not examined)" if out["truncated"] else ""))
+    return n, out["rejections"]
